@@ -60,6 +60,10 @@ func init() {
 		}
 		if c.fuzzTime == 0 {
 			c.fuzzTime = 90 * time.Second
+			// VERIF_FUZZTIME=10m for a longer native fuzz campaign per target (thorough tier only)
+			if d, err := time.ParseDuration(os.Getenv("VERIF_FUZZTIME")); err == nil && d > 0 {
+				c.fuzzTime = d
+			}
 		}
 		props[id] = c
 	}
